@@ -178,4 +178,28 @@ theorem resync_text (hP : P.isWord '@' = false) (x r lit r2 : Str) (hy : atMatch
   injection hr with h1 _
   simp [AT] at h1
 
+/-- non-vacuity (kernel-evaluated): a truncated entry with an open quote and an open brace,
+`@a{k,f="{`, followed on the next line by `@comment{c}` and `@b{j}`: the open block is closed as a
+failed block ending before the mark, and both following blocks are parsed as on their own, one line
+further down. -/
+example :
+    (splitToks asciiChars
+      ([.mark .nl ['\n'], .mark .at "@a".toList, LB, .text "k".toList, CM, .text "f".toList, EQ,
+        .mark .quote ['"'], LB, .mark .nl ['\n']] ++
+       itemsToks [(.comment "@comment".toList [.text "c".toList], [.mark .nl ['\n']]),
+                  (.entry "@b".toList [.text "j".toList] [] none, [])])).toOption.map
+      (fun bs => bs.map fun b => (b.isFailed, b.line, String.ofList b.raw))
+    = some [(true, 0, "@a{k,f=\"{\n"), (false, 1, "@comment{c}"), (false, 2, "@b{j}")] := by
+  decide +kernel
+
+example :
+    (∀ bj ∈ [((BlockSrc.comment "@comment".toList [Tok.text "c".toList]), [Tok.mark .nl ['\n']]),
+             ((BlockSrc.entry "@b".toList [Tok.text "j".toList] [] none), ([] : List Tok))],
+      bj.1.WF asciiChars ∧ IsJunk bj.2) := by
+  intro bj hbj
+  simp only [List.mem_cons, List.not_mem_nil, or_false] at hbj
+  rcases hbj with rfl | rfl
+  · exact ⟨⟨by decide +kernel, IsBal.plain _ _ rfl IsBal.nil⟩, by decide⟩
+  · exact ⟨⟨by decide +kernel, by decide, (by intro f hf; cases hf), (by intro w hw; cases hw)⟩, by decide⟩
+
 end Bib.C04
